@@ -118,6 +118,8 @@ type harnessSummary struct {
 	Decisions       int64          `json:"solver_decided_branches"`
 	Choices         int64          `json:"enumerated_choices"`
 	FastDecided     int64          `json:"branch_queries_decided_by_octet_domain"`
+	Solver2Queries  int64          `json:"assertion_queries_rechecked_by_second_solver"`
+	Solver2Unknown  int64          `json:"of_which_second_solver_gave_up_within_3s"`
 	AssertsSolver   int64          `json:"assertions_discharged_by_solver"`
 	AssertsConcrete int64          `json:"assertions_true_by_constant_folding"`
 	Steps           int64          `json:"ssa_instructions_executed"`
@@ -184,7 +186,8 @@ func (c *checker) run(id string) int {
 	for _, h := range hs {
 		cfg := gosym.Config{Harness: h, Tier: c.tierN(), Workers: c.workers, KnownIDs: knownIDs, SolverKind: c.solver,
 			MaxPaths: c.maxPaths, PreemptBound: 2, WitnessMode: c.native, Deadline: deadline,
-			NoFastPath: os.Getenv("VERIF_NO_FASTPATH") != "", CrossCheck: c.tier == "thorough" || os.Getenv("VERIF_CROSSCHECK") != ""}
+			Solver2Kind: solver2For(c.tier),
+			NoFastPath:  os.Getenv("VERIF_NO_FASTPATH") != "", CrossCheck: c.tier == "thorough" || os.Getenv("VERIF_CROSSCHECK") != ""}
 		if c.tier == "thorough" {
 			cfg.PreemptBound = 3
 		}
@@ -286,7 +289,7 @@ func (c *checker) run(id string) int {
 	byHarness := map[string]*harnessSummary{}
 	for _, r := range results {
 		rep, h := r.rep, r.h
-		s := harnessSummary{Name: h, Paths: rep.Paths, Completed: rep.Completed, Pruned: rep.Pruned, Decisions: rep.Branches, Choices: rep.Choices, FastDecided: rep.FastDecided,
+		s := harnessSummary{Name: h, Paths: rep.Paths, Completed: rep.Completed, Pruned: rep.Pruned, Decisions: rep.Branches, Choices: rep.Choices, FastDecided: rep.FastDecided, Solver2Queries: rep.Solver2Queries, Solver2Unknown: rep.Solver2Unknown,
 			AssertsSolver: rep.AssertsSolver, AssertsConcrete: rep.AssertsConcrete, Steps: rep.Steps, Reached: rep.Reached,
 			WallS: rep.Wall.Seconds(), SolverS: rep.SolverTime.Seconds(),
 			Queries:      map[string]int{"sat": rep.SolverSat, "unsat": rep.SolverUnsat, "unknown": rep.SolverUnknown},
@@ -357,6 +360,12 @@ func (c *checker) run(id string) int {
 				path := c.writeReplay(rc)
 				violLines = append(violLines, fmt.Sprintf("VIOLATION property=%s replay=%s", id, path))
 				fmt.Fprintf(os.Stderr, "violation: harness=%s label=%s %s inputs=%v\n", rc.Harness, rc.Label, rc.Detail, rc.Inputs)
+				totalViol++
+			} else if rc.Label == "deadlock" && o.Outcome == "timeout" && len(rc.Sched) == 0 {
+				// the natively compiled harness hangs on the same inputs
+				path := c.writeReplay(rc)
+				violLines = append(violLines, fmt.Sprintf("VIOLATION property=%s replay=%s", id, path))
+				fmt.Fprintf(os.Stderr, "violation: harness=%s label=deadlock %s inputs=%v (the native run hangs too)\n", rc.Harness, rc.Detail, rc.Inputs)
 				totalViol++
 			} else if rc.Label == "deadlock" || len(rc.Sched) > 0 {
 				// schedule-dependent: the native scheduler cannot be forced;
@@ -445,6 +454,21 @@ func (c *checker) run(id string) int {
 	}
 	fmt.Printf("OK property=%s tier=%s harnesses=%d paths=%d assertions=%d validated=%d wall=%.1fs\n", id, c.tier, len(sums), paths, asserts, validated, wall)
 	return 0
+}
+
+// solver2For: in the thorough tier every assertion query is re-discharged by
+// cvc5 (VERIF_SOLVER2 overrides: "none", "cvc5", "z3-new").
+func solver2For(tier string) string {
+	if v := os.Getenv("VERIF_SOLVER2"); v != "" {
+		if v == "none" {
+			return ""
+		}
+		return v
+	}
+	if tier == "thorough" {
+		return "cvc5"
+	}
+	return ""
 }
 
 func (c *checker) validateAgainstEngine(prog *gosym.Program, rc replayCase, o nativeOut) (bool, string) {
